@@ -9,7 +9,8 @@ Open Scope Z_scope.
 Inductive targ := TNone | TMal | TIx (i : N).
 Inductive iop :=
 | IPut (c h e : N) | IDel (c h : N) | IMove (c h c2 h2 : N) | IReplace (c : N) (l : list (N * N))
-| IDelColl (c : N) | IDropCache (c : N) (inroot : bool) | ITick (dt : N) | ISync (c : N) (a : targ) | IPTok (c : N).
+| IDelColl (c : N) | IDropCache (c : N) (inroot : bool) | ITick (dt : N) | ISync (c : N) (a : targ) | IPTok (c : N)
+| ISyncFail (c : N) (a : targ).
 
 Record canon := mkCanon { seen_tok : list token; seen_he : list hetag }.
 
@@ -45,6 +46,7 @@ Definition to_op (k : canon) (o : iop) : op :=
   | IPut c h e => Put c h e | IDel c h => Del c h | IMove c h c2 h2 => Move c h c2 h2
   | IReplace c l => Replace c l | IDelColl c => DelColl c | IDropCache c b => DropCache c b
   | ITick dt => Tick dt | ISync c a => Sync c (resolve k a) | IPTok c => PTok c
+  | ISyncFail c a => SyncFail c (resolve k a)
   end.
 
 Definition zcid (e : option etag) : Z := match e with Some (EText c) => Z.of_N c | None => -1 end.
@@ -98,11 +100,13 @@ Definition ser_result (k : canon) (st : state) (c : collid) (r : result) : canon
       let ms := sort_by_key (multistatus st c d) in
       (k1, 3 :: i :: Z.of_nat (length ms) :: flat_map (fun p : href * option etag => [Z.of_N (fst p); zcid (snd p)]) ms)
   | RTok t => let '(k1, i) := tok_id k t in (k1, [4; i])
+  | RFail => (k, [5])
   end.
 
 Definition op_coll (o : iop) : collid :=
   match o with
-  | IPut c _ _ | IDel c _ | IMove c _ _ _ | IReplace c _ | IDelColl c | IDropCache c _ | ISync c _ | IPTok c => c
+  | IPut c _ _ | IDel c _ | IMove c _ _ _ | IReplace c _ | IDelColl c | IDropCache c _ | ISync c _ | IPTok c
+  | ISyncFail c _ => c
   | ITick _ => 0%N
   end.
 
